@@ -235,8 +235,14 @@ func sysRandomStims(rng *rand.Rand, cfg sys.Config, n int, w map[string]int) []s
 		switch kinds[rng.Intn(len(kinds))] {
 		case "invoke":
 			out = append(out, sys.Stim{K: "start", T: t, Op: "Invoke", Md: []string{"none", "none", "M1"}[rng.Intn(3)]})
+			if hasPoint(cfg, "manager.acquire.got") && rng.Intn(10) < 7 {
+				out = append(out, sys.Stim{K: "point", T: t})
+			}
 		case "newstream":
 			out = append(out, sys.Stim{K: "start", T: t, Op: "NewStream", Md: []string{"none", "none", "M1"}[rng.Intn(3)]})
+			if hasPoint(cfg, "manager.acquire.got") && rng.Intn(10) < 7 {
+				out = append(out, sys.Stim{K: "point", T: t})
+			}
 		case "op":
 			ops := []string{"Send1", "Send2", "Recv", "Recv", "CloseSend", "Close", "Send1", "Send2", "Recv", "Recv", "CloseSend", "SendErr", "SendBad"}
 			op := ops[rng.Intn(13)]
@@ -251,7 +257,11 @@ func sysRandomStims(rng *rand.Rand, cfg sys.Config, n int, w map[string]int) []s
 		case "relwerr":
 			out = append(out, sys.Stim{K: "relw", E: eps[rng.Intn(2)], How: "err"})
 		case "deliver":
-			out = append(out, sys.Stim{K: "deliver", E: eps[rng.Intn(2)]})
+			e := eps[rng.Intn(2)]
+			out = append(out, sys.Stim{K: "deliver", E: e})
+			if hasPoint(cfg, "manager.reader.dispatch") && rng.Intn(10) < 7 {
+				out = append(out, sys.Stim{K: "point", T: "rd_" + e}) // mostly the reader goes on at once; sometimes it stays preempted before the dispatch
+			}
 		case "cancel":
 			out = append(out, sys.Stim{K: "cancel", R: 1 + rng.Intn(sys.MaxRPC)})
 		case "cancelsrv":
@@ -270,6 +280,9 @@ func sysRandomStims(rng *rand.Rand, cfg sys.Config, n int, w map[string]int) []s
 			ts := append(append([]string{}, cfg.Threads...), "sv")
 			if hasPoint(cfg, "manager.stream.ctx") {
 				ts = append(ts, "ms_cli", "ms_cli", "ms_srv")
+			}
+			if hasPoint(cfg, "manager.reader.dispatch") {
+				ts = append(ts, "rd_cli", "rd_srv", "rd_cli", "rd_srv")
 			}
 			out = append(out, sys.Stim{K: "point", T: ts[rng.Intn(len(ts))]})
 		}
@@ -300,6 +313,7 @@ func sysDev(c *vf.Ctx) {
 	if v, err := strconv.Atoi(os.Getenv("VERIF_N")); err == nil {
 		n = v
 	}
+	cfgI := 0
 	for _, cfg := range []sys.Config{
 		{Small: true, Threads: []string{"c1", "c2"}},
 		{Small: false, Threads: []string{"c1", "c2"}},
@@ -308,7 +322,15 @@ func sysDev(c *vf.Ctx) {
 		{Small: true, Soft: true, GateU: true, Threads: []string{"c1", "c2"}},
 		{Small: true, Soft: true, Points: []string{"conn.created", "manager.newstream.beforeset"}, Threads: []string{"c1", "c2"}},
 		{Small: false, Soft: false, Points: []string{"conn.created", "manager.newstream.beforeset"}, Threads: []string{"c1", "c2"}},
+		{Small: true, Soft: true, Points: []string{"manager.reader.dispatch"}, Threads: []string{"c1", "c2"}},
+		{Small: true, Soft: false, Points: []string{"manager.stream.ctx", "manager.acquire.got"}, Threads: []string{"c1", "c2"}},
+		{Small: false, Soft: true, Points: []string{"manager.stream.ctx", "manager.reader.dispatch", "manager.acquire.got", "conn.meta.written"}, Threads: []string{"c1", "c2"}},
 	} {
+		if v := os.Getenv("VERIF_CFGI"); v != "" && v != strconv.Itoa(cfgI) {
+			cfgI++
+			continue
+		}
+		cfgI++
 		var runs []*sysRun
 		for _, scen := range []string{"happy", "cancel", "close", "fault", "all"} {
 			if only != "" && only != scen {
